@@ -78,7 +78,10 @@ def judge(prop, consts, records, wd, name, shards=8):
 
 
 def run_config(run: Run, prop, name, consts, wd, *, caching=False, simulate=None, depth=None, seed=None):
+    import time as _t
+    t0 = _t.time()
     gen = generate(name, consts, wd, simulate=simulate, depth=depth, seed=seed)
+    t1 = _t.time()
     run.add_model(name + ("+cache" if caching else ""), gen,
                   {k: (sorted(v) if isinstance(v, set) else v) for k, v in consts.items()})
     calls_at, states = explore.parse_transitions(gen["json"])
@@ -86,7 +89,9 @@ def run_config(run: Run, prop, name, consts, wd, *, caching=False, simulate=None
     if W.key(init) not in states:
         raise Machinery("executor's initial projection is not the model's initial state")
     records, confirmed, st = explore.explore(consts, init, calls_at, states, caching=caching)
+    t2 = _t.time()
     verdicts = judge(prop, consts, records, wd, name)
+    t3 = _t.time()
     by_id = {r["id"]: r for r in records}
     skipped = {"pre": 0, "domain": 0}
     bad = 0
@@ -113,6 +118,7 @@ def run_config(run: Run, prop, name, consts, wd, *, caching=False, simulate=None
         r = records[len(records) // 2]
         run.sample({"config": name, "caching": caching, "pre": r["pre"], "call": r["c"], "res": r["res"], "post": r["post"]})
     st.update({"skipped_pre_not_invariant": skipped["pre"], "skipped_out_of_domain": skipped["domain"],
-               "records_failing": bad})
+               "records_failing": bad, "t_generate_s": round(t1 - t0, 1), "t_execute_s": round(t2 - t1, 1),
+               "t_judge_s": round(t3 - t2, 1)})
     run.extra.setdefault("executions", []).append({"config": name, "caching": caching, **st})
     return records, st
